@@ -4,7 +4,9 @@ package main
 // equality with existing keys; range order is a decision over remaining entries.
 
 import (
+	"fmt"
 	"sort"
+	"sync"
 
 	"golang.org/x/tools/go/ssa"
 )
@@ -74,29 +76,65 @@ func (p *Path) mapFind(m *Map, k Value) *MapEntry {
 	return nil
 }
 
-// bigMapFind handles a symbolic key against a large constant table (stdlib hints):
-// either the key is outside the key set, or the value is an ite chain over the table.
+// bigMapFind handles a symbolic key against a large constant table (stdlib hints).
+// The lookup result is the application bigmapN(k) of an uninterpreted function whose
+// contract is "the result is one of the table's values or the zero value" and whose
+// real values (the table) are used for counterexample refinement. This
+// over-approximates the table (sound for unsat verdicts); exact reasoning over the
+// table (C18) constrains k to the key set and uses ground facts.
 func (p *Path) bigMapFind(m *Map, k *Term) *MapEntry {
-	var lits []*Re
-	keys := make([]string, 0, len(m.entries))
-	for _, e := range m.entries {
-		keys = append(keys, e.k.(*Term).S)
-	}
-	sort.Strings(keys)
-	for _, s := range keys {
-		lits = append(lits, reLit(s))
-	}
-	in := mkInRe(k, reUnion(lits...))
-	if !p.branch(in, "bigmap-member") {
+	name := registerBigMap(m)
+	val := mkUF(name, SStr, k)
+	if !p.branch(mkNot(mkEq(val, mkStr(""))), "bigmap-member") {
 		return nil
 	}
-	// value as an ite chain (built once per key term thanks to hash-consing)
-	var val *Term = mkStr("")
-	for i := len(m.entries) - 1; i >= 0; i-- {
-		e := m.entries[i]
-		val = mkIte(mkEq(k, e.k.(*Term)), e.v.(*Term), val)
-	}
 	return &MapEntry{k: k, v: val}
+}
+
+type bigMapInfo struct {
+	table  map[string]string
+	values *Re
+	keys   []string
+}
+
+var (
+	bigMapMu  sync.Mutex
+	bigMapTab = map[string]*bigMapInfo{}
+)
+
+func registerBigMap(m *Map) string {
+	name := fmt.Sprintf("bigmap%d", m.serial)
+	bigMapMu.Lock()
+	defer bigMapMu.Unlock()
+	if _, ok := bigMapTab[name]; ok {
+		return name
+	}
+	info := &bigMapInfo{table: map[string]string{}}
+	vals := map[string]bool{"": true}
+	for _, e := range m.entries {
+		info.table[e.k.(*Term).S] = e.v.(*Term).S
+		info.keys = append(info.keys, e.k.(*Term).S)
+		vals[e.v.(*Term).S] = true
+	}
+	sort.Strings(info.keys)
+	var vs []string
+	for v := range vals {
+		vs = append(vs, v)
+	}
+	sort.Strings(vs)
+	var lits []*Re
+	for _, v := range vs {
+		lits = append(lits, reLit(v))
+	}
+	info.values = reUnion(lits...)
+	bigMapTab[name] = info
+	return name
+}
+
+func bigMapInfoFor(name string) *bigMapInfo {
+	bigMapMu.Lock()
+	defer bigMapMu.Unlock()
+	return bigMapTab[name]
 }
 
 func (p *Path) mapLookup(m *Map, k Value) (Value, bool) {
